@@ -43,10 +43,10 @@ type wgStructure struct {
 type wgOutcome struct {
 	Result string   `json:"result"` // ok | modelcycle | tuplecycle | invalid | other | panic
 	Err    string   `json:"err,omitempty"`
-	NW     [][]any  `json:"nw"`  // [node, "T"|"R", key, weight]
-	EW     [][]any  `json:"ew"`  // [from, k, "T"|"R", key, weight]
-	NWC    [][]any  `json:"nwc"` // [node, type]
-	EWC    [][]any  `json:"ewc"` // [from, k, type]
+	NW     [][]any  `json:"nw"`   // [node, "T"|"R", key, weight]
+	EW     [][]any  `json:"ew"`   // [from, k, "T"|"R", key, weight]
+	NWC    [][]any  `json:"nwc"`  // [node, type]
+	EWC    [][]any  `json:"ewc"`  // [from, k, type]
 	WDup   bool     `json:"wdup"` // some wildcard list contains a duplicate
 	Roots  []string `json:"roots"`
 	Forced bool     `json:"forced"`
@@ -230,6 +230,11 @@ type wgRun struct {
 
 var hookMu sync.Mutex
 
+// sharedBuilder lives as long as the process: every second natural-order build goes through it, so that state kept
+// on a builder between Build calls (history dependence) shows up as a differing outcome.
+var sharedBuilder = graph.NewWeightedAuthorizationModelGraphBuilder()
+var buildCount int
+
 // buildWG runs the real builder once. forced == nil: natural (map iteration) order, roots logged through the hook.
 func buildWG(model *openfgav1.AuthorizationModel, forced []string) (run *wgRun) {
 	hookMu.Lock()
@@ -266,7 +271,12 @@ func buildWG(model *openfgav1.AuthorizationModel, forced []string) (run *wgRun) 
 	var panicked any
 	func() {
 		defer func() { panicked = recover() }()
-		g, err = graph.NewWeightedAuthorizationModelGraphBuilder().Build(model)
+		b := graph.NewWeightedAuthorizationModelGraphBuilder()
+		buildCount++
+		if forced == nil && buildCount%2 == 0 {
+			b = sharedBuilder
+		}
+		g, err = b.Build(model)
 	}()
 	if run.cn == nil {
 		run.cn = map[string]string{}
